@@ -4,6 +4,9 @@
 
    Model:  AppProtect/Model.v  (step : state -> event -> state * output, run en evs = fold_left)
    Spec:   AppProtect/Spec.v   (answers as a function of the current object set only)
+   fx          : the code variant -- false = /repo as it is, true = /repo with fixes/F21.diff applied
+                 (isReqSatisfiedByUserSig accepts a requirement without bounds); every theorem is for
+                 both variants unless it fixes fx.
    K1_hist evs : after every event of the history the stored APUserSig objects have distinct uids
                  (API-server assumption K1; nothing else is assumed about the history: updates may
                  change tags, timestamps, validity; deletes may hit absent keys). *)
@@ -18,8 +21,8 @@ Open Scope Z_scope.
 (* The invariant, as an equality of states: after EVERY history the two configurations are in
    exactly the state rebuilt from scratch from the current objects. *)
 Theorem C19_state_is_rebuilt :
-  forall (en : bool) (evs : list event), K1_hist evs -> run en evs = spec_state en (final_objects evs).
-Proof. exact run_is_spec_state. Qed.
+  forall (fx en : bool) (evs : list event), K1_hist evs -> run fx en evs = spec_state fx en (final_objects evs).
+Proof. exact @run_is_spec_state. Qed.
 Print Assumptions C19_state_is_rebuilt.
 
 (* FULL STATEMENT (false, see C19_revtime_refuted):
@@ -28,20 +31,20 @@ Print Assumptions C19_state_is_rebuilt.
    Proved: the same with the revision-time test as coded ([acceptable_as_coded] differs from
    [acceptable] only for a requirement without bounds against a dated signature) ... *)
 Theorem C19_flags_are_spec_as_coded :
-  forall (en : bool) (evs : list event), K1_hist evs ->
-    (forall kd key, get_app_resource (waf (run en evs)) kd key =
-                    spec_answer acceptable_as_coded (final_objects evs) kd key) /\
-    (forall ns nm, get_valid_dos_ex (dos (run en evs)) ns nm = spec_dos_answer en (final_objects evs) ns nm).
-Proof. exact flags_are_spec_as_coded. Qed.
+  forall (fx en : bool) (evs : list event), K1_hist evs ->
+    (forall kd key, get_app_resource (waf (run fx en evs)) kd key =
+                    spec_answer (acceptable_for fx) (final_objects evs) kd key) /\
+    (forall ns nm, get_valid_dos_ex (dos (run fx en evs)) ns nm = spec_dos_answer en (final_objects evs) ns nm).
+Proof. exact @flags_are_spec_as_coded. Qed.
 Print Assumptions C19_flags_are_spec_as_coded.
 
 (* ... and the full statement for every history whose final objects contain no pair
    (requirement with a tag and no bound, signature with that tag and a revision time). *)
 Theorem C19_flags_are_spec :
-  forall (en : bool) (evs : list event), K1_hist evs -> f21_free (final_objects evs) ->
-    (forall kd key, get_app_resource (waf (run en evs)) kd key = spec_answer acceptable (final_objects evs) kd key) /\
-    (forall ns nm, get_valid_dos_ex (dos (run en evs)) ns nm = spec_dos_answer en (final_objects evs) ns nm).
-Proof. exact flags_are_spec. Qed.
+  forall (fx en : bool) (evs : list event), K1_hist evs -> fx = true \/ f21_free (final_objects evs) ->
+    (forall kd key, get_app_resource (waf (run fx en evs)) kd key = spec_answer acceptable (final_objects evs) kd key) /\
+    (forall ns nm, get_valid_dos_ex (dos (run fx en evs)) ns nm = spec_dos_answer en (final_objects evs) ns nm).
+Proof. exact @flags_are_spec. Qed.
 Print Assumptions C19_flags_are_spec.
 
 (* Without that restriction the property text fails of the faithful model: F21. *)
@@ -51,32 +54,48 @@ Theorem C19_revtime_refuted :
     lookup k (ob_pol (final_objects evs)) = Some w_pol /\
     spec_sig_answer (ob_sig (final_objects evs)) ks = AOk /\
     spec_pol_answer acceptable (final_objects evs) k = AOk /\
-    get_app_resource (waf (run true evs)) KPolicy k = AErr EMissing /\
-    get_app_resource (waf (run true (rev evs))) KPolicy k = AErr EMissing.
+    get_app_resource (waf (run false true evs)) KPolicy k = AErr EMissing /\
+    get_app_resource (waf (run false true (rev evs))) KPolicy k = AErr EMissing.
 Proof. exact revtime_refuted. Qed.
 Print Assumptions C19_revtime_refuted.
+
+(* With fixes/F21.diff applied (variant fx = true; the harness probes which variant the tree has)
+   the FULL statement holds for every history, and the witness above becomes usable. *)
+Theorem C19_flags_are_spec_with_fix :
+  forall (en : bool) (evs : list event), K1_hist evs ->
+    (forall kd key, get_app_resource (waf (run true en evs)) kd key = spec_answer acceptable (final_objects evs) kd key) /\
+    (forall ns nm, get_valid_dos_ex (dos (run true en evs)) ns nm = spec_dos_answer en (final_objects evs) ns nm).
+Proof. exact flags_are_spec_with_fix. Qed.
+Print Assumptions C19_flags_are_spec_with_fix.
+
+Theorem C19_revtime_repaired :
+  let evs := [EvUserSig "n1/a" w_sig; EvPolicy "n1/a" w_pol] in
+  get_app_resource (waf (run true true evs)) KPolicy "n1/a" = AOk /\
+  get_app_resource (waf (run true true (rev evs))) KPolicy "n1/a" = AOk.
+Proof. exact revtime_repaired. Qed.
+Print Assumptions C19_revtime_repaired.
 
 (* Among the well-formed signatures declaring the same tag exactly one -- the oldest -- is in
    force, the others answer "duplicate tag set". *)
 Theorem C19_one_in_force_per_tag :
-  forall (en : bool) (evs : list event), K1_hist evs ->
+  forall (fx en : bool) (evs : list event), K1_hist evs ->
     let S := ob_sig (final_objects evs) in
     forall k0 o0, In (k0, o0) S -> sig_competes o0 = true ->
     exists k o, In (k, o) S /\ sig_competes o = true /\ so_tag o = so_tag o0 /\
-                get_app_resource (waf (run en evs)) KUserSig k = AOk /\
+                get_app_resource (waf (run fx en evs)) KUserSig k = AOk /\
                 forall k' o', In (k', o') S -> k' <> k -> sig_competes o' = true -> so_tag o' = so_tag o0 ->
                               older o o' = true /\
-                              get_app_resource (waf (run en evs)) KUserSig k' = AErr EDup.
-Proof. exact one_in_force_per_tag. Qed.
+                              get_app_resource (waf (run fx en evs)) KUserSig k' = AErr EDup.
+Proof. exact @one_in_force_per_tag. Qed.
 Print Assumptions C19_one_in_force_per_tag.
 
 (* Which resources are in force depends only on the current objects: two histories (in
    particular two permutations) with the same final objects leave the SAME state, hence the same
    answers now and the same behaviour on every later event. *)
 Theorem C19_order_independent :
-  forall (en : bool) (evs1 evs2 : list event),
-    K1_hist evs1 -> K1_hist evs2 -> final_objects evs1 = final_objects evs2 -> run en evs1 = run en evs2.
-Proof. exact order_independent_state. Qed.
+  forall (fx en : bool) (evs1 evs2 : list event),
+    K1_hist evs1 -> K1_hist evs2 -> final_objects evs1 = final_objects evs2 -> run fx en evs1 = run fx en evs2.
+Proof. exact @order_independent_state. Qed.
 Print Assumptions C19_order_independent.
 
 (* The winner of a tag does not depend on the order in which Go's map iteration presents the
@@ -91,30 +110,30 @@ Print Assumptions C19_winner_independent_of_iteration_order.
    the returned change list with the right operation, and with a problem when the resource is
    still stored but no longer usable -- after every history, for every next event. *)
 Theorem C19_changes_reported :
-  forall (en : bool) (evs : list event) (ev : event) (kd : kind) (key : string),
+  forall (fx en : bool) (evs : list event) (ev : event) (kd : kind) (key : string),
     K1_hist evs -> kd = KPolicy \/ kd = KLogConf \/ kd = KDosPR ->
-    let st := run en evs in
-    usable st kd key <> usable (fst (step st ev)) kd key ->
-    In (chg (op_for (usable (fst (step st ev)) kd key)) kd key) (o_changes (snd (step st ev))) /\
-    (stored (fst (step st ev)) kd key = true -> usable (fst (step st ev)) kd key = false ->
-     exists c, In (prob kd key c) (o_problems (snd (step st ev)))).
-Proof. exact changes_reported. Qed.
+    let st := run fx en evs in
+    usable st kd key <> usable (fst (step fx st ev)) kd key ->
+    In (chg (op_for (usable (fst (step fx st ev)) kd key)) kd key) (o_changes (snd (step fx st ev))) /\
+    (stored (fst (step fx st ev)) kd key = true -> usable (fst (step fx st ev)) kd key = false ->
+     exists c, In (prob kd key c) (o_problems (snd (step fx st ev)))).
+Proof. exact @changes_reported. Qed.
 Print Assumptions C19_changes_reported.
 
 (* DoS policies and DoS log configurations have no getter of their own (their validity shows in the
    answers for the protected resources naming them, covered above); their own events always name
    them in the change list, with a problem when they are invalid. *)
 Theorem C19_dos_policy_events_reported :
-  forall (st : state) (k : string),
-    (forall o, let out := snd (step st (EvDosPolicy k o)) in
+  forall (fx : bool) (st : state) (k : string),
+    (forall o, let out := snd (step fx st (EvDosPolicy k o)) in
                In (chg (op_for (dp_valid o)) KDosPolicy k) (o_changes out) /\
                (dp_valid o = false -> In (prob KDosPolicy k PcValidation) (o_problems out))) /\
-    (forall o, let out := snd (step st (EvDosLogConf k o)) in
+    (forall o, let out := snd (step fx st (EvDosLogConf k o)) in
                In (chg (op_for (dl_valid o)) KDosLogConf k) (o_changes out) /\
                (dl_valid o = false -> In (prob KDosLogConf k PcValidation) (o_problems out))) /\
-    (stored st KDosPolicy k = true -> In (chg OpDelete KDosPolicy k) (o_changes (snd (step st (EvDelDosPolicy k))))) /\
-    (stored st KDosLogConf k = true -> In (chg OpDelete KDosLogConf k) (o_changes (snd (step st (EvDelDosLogConf k))))).
-Proof. exact dos_policy_events_reported. Qed.
+    (stored st KDosPolicy k = true -> In (chg OpDelete KDosPolicy k) (o_changes (snd (step fx st (EvDelDosPolicy k))))) /\
+    (stored st KDosLogConf k = true -> In (chg OpDelete KDosLogConf k) (o_changes (snd (step fx st (EvDelDosLogConf k))))).
+Proof. exact @dos_policy_events_reported. Qed.
 Print Assumptions C19_dos_policy_events_reported.
 
 (* Signatures are reported through UserSigChange.UserSigs, the complete list of signatures in
@@ -122,48 +141,48 @@ Print Assumptions C19_dos_policy_events_reported.
    signature operation.  Proved: for every signature operation except DeleteUserSig of a key that
    is not stored. *)
 Theorem C19_usersig_list_reported_partial :
-  forall (en : bool) (evs : list event) (ev : event), K1_hist evs ->
-    let st := run en evs in
+  forall (fx en : bool) (evs : list event) (ev : event), K1_hist evs ->
+    let st := run fx en evs in
     sig_op_effective st ev = true ->
-    exists l, o_usersigs (snd (step st ev)) = Some l /\
-              forall key, In key l <-> usable (fst (step st ev)) KUserSig key = true.
-Proof. exact usersig_list_reported. Qed.
+    exists l, o_usersigs (snd (step fx st ev)) = Some l /\
+              forall key, In key l <-> usable (fst (step fx st ev)) KUserSig key = true.
+Proof. exact @usersig_list_reported. Qed.
 Print Assumptions C19_usersig_list_reported_partial.
 
-Theorem C19_usersig_report_refuted :
+Theorem C19_usersig_report_refuted : forall fx : bool,
   exists (evs : list event) (ev : event) (k : string),
-    let st := run true evs in
-    get_app_resource (waf (fst (step st ev))) KUserSig k = AOk /\
-    fst (step st ev) = st /\
-    o_usersigs (snd (step st ev)) = Some [].
+    let st := run fx true evs in
+    get_app_resource (waf (fst (step fx st ev))) KUserSig k = AOk /\
+    fst (step fx st ev) = st /\
+    o_usersigs (snd (step fx st ev)) = Some [].
 Proof. exact usersig_report_refuted. Qed.
 Print Assumptions C19_usersig_report_refuted.
 
 (* The deletion of an absent key changes no flag at all (only its report is wrong) ... *)
 Theorem C19_delete_absent_changes_nothing :
-  forall (st : state) (k : string), stored st KUserSig k = false ->
-    fst (step st (EvDelUserSig k)) = st /\ o_usersigs (snd (step st (EvDelUserSig k))) = Some [].
-Proof. exact usersig_delete_absent. Qed.
+  forall (fx : bool) (st : state) (k : string), stored st KUserSig k = false ->
+    fst (step fx st (EvDelUserSig k)) = st /\ o_usersigs (snd (step fx st (EvDelUserSig k))) = Some [].
+Proof. exact @usersig_delete_absent. Qed.
 Print Assumptions C19_delete_absent_changes_nothing.
 
 (* ... operations on the other five kinds never change which signatures are in force ... *)
 Theorem C19_other_events_keep_signatures :
-  forall (st : state) (ev : event) (key : string), is_sig_event ev = false ->
-    usable (fst (step st ev)) KUserSig key = usable st KUserSig key /\ o_usersigs (snd (step st ev)) = None.
-Proof. exact other_events_keep_sigs. Qed.
+  forall (fx : bool) (st : state) (ev : event) (key : string), is_sig_event ev = false ->
+    usable (fst (step fx st ev)) KUserSig key = usable st KUserSig key /\ o_usersigs (snd (step fx st ev)) = None.
+Proof. exact @other_events_keep_sigs. Qed.
 Print Assumptions C19_other_events_keep_signatures.
 
 (* ... and a signature that stays stored and is not in force after a signature operation, having
    been in force before or being the object of the operation, is named in a problem. *)
 Theorem C19_usersig_problems_reported :
-  forall (en : bool) (evs : list event) (ev : event) (key : string), K1_hist evs ->
-    let st := run en evs in
+  forall (fx en : bool) (evs : list event) (ev : event) (key : string), K1_hist evs ->
+    let st := run fx en evs in
     is_sig_event ev = true ->
-    stored (fst (step st ev)) KUserSig key = true ->
-    usable (fst (step st ev)) KUserSig key = false ->
+    stored (fst (step fx st ev)) KUserSig key = true ->
+    usable (fst (step fx st ev)) KUserSig key = false ->
     (usable st KUserSig key = true \/ exists o, ev = EvUserSig key o) ->
-    exists c, In (prob KUserSig key c) (o_problems (snd (step st ev))).
-Proof. exact usersig_problems_reported. Qed.
+    exists c, In (prob KUserSig key c) (o_problems (snd (step fx st ev))).
+Proof. exact @usersig_problems_reported. Qed.
 Print Assumptions C19_usersig_problems_reported.
 
 (* ------------------------------------------------------------------------------------------ *)
@@ -195,6 +214,6 @@ Example C19_nonvacuous_hypotheses : K1_hist ex_hist /\ f21_free (final_objects e
 Proof. split; [apply K1_histb_sound|apply f21_freeb_sound]; vm_compute; reflexivity. Qed.
 
 Example C19_nonvacuous_answers :
-  model_answers (run true ex_hist) ["n1/a"; "n1/b"; "n2/a"; "n2/b"; "n1/p"; "n1/q"] [("n1", "r1"); ("n1", "r2"); ("n2", "r1")]
+  model_answers (run false true ex_hist) ["n1/a"; "n1/b"; "n2/a"; "n2/b"; "n1/p"; "n1/q"] [("n1", "r1"); ("n1", "r2"); ("n2", "r1")]
   = list_ascii_of_string "0NNNMMNNNNNNDD0TNNl0N".
 Proof. vm_compute. reflexivity. Qed.
